@@ -6,7 +6,7 @@ PATCH="$(realpath "$1")"; ID="$2"; TIER="${3:-quick}"
 ROOT="$(cd "$(dirname "${BASH_SOURCE[0]}")/.." && pwd)"
 if [ -n "$(git -C /repo status --porcelain --untracked-files=no)" ]; then echo "refusing: /repo has uncommitted changes"; exit 3; fi
 git -C /repo apply "$PATCH" || { echo "patch does not apply"; exit 3; }
-"$ROOT/check" "$ID" "$TIER" > "$ROOT/logs/try-$ID.out" 2>&1; rc=$?
+mkdir -p "$ROOT/logs"; "$ROOT/check" "$ID" "$TIER" > "$ROOT/logs/try-$ID.out" 2>&1; rc=$?
 git -C /repo checkout -- .
 grep -E '^(VIOLATION|KNOWN-FINDING|HARNESS-ERROR)|^property=' "$ROOT/logs/try-$ID.out" | head -8
 echo "exit=$rc"
